@@ -535,6 +535,9 @@ class MailboxSet(MailboxSetInterface[MailboxData]):
                 if '.' in part:
                     # nests with '.' on disk: a.b would also be a/b
                     raise exc_type(name)
+            elif part in ('cur', 'new', 'tmp'):
+                # would be a sub-directory of the parent's own maildir
+                raise exc_type(name)
         try:
             if len(os.fsencode(name)) > 240:
                 raise exc_type(name)
